@@ -1059,7 +1059,23 @@ fn gen_lt_history(rng: &mut Rng, out: &mut Out, stats: &mut HashMap<String, u64>
         let Some(id) = send(&mut run, out, rng, &mut now) else { continue };
         let fp = if cfg.fp { vec![A::Fp(true)] } else { vec![] };
         let with_fp = |mut a: Vec<A>| -> Vec<A> { a.extend(fp.clone()); a };
-        match rng.below(12) {
+        match rng.below(14) {
+            12 | 13 => {
+                // a forged response first (on unreliable transport it leaves the protection-violated marker), then replies that
+                // must be REJECTED although their integrity verifies (a 438 without NONCE, a 401 without REALM, a success with
+                // both integrity kinds): a rejected buffer changes nothing, the marker included; then the timer runs to the end
+                reply(&mut run, out, &mut now, id, *rng.pick(&[2u8, 3]), with_fp(signed(&srv, vec![], KeyD::Lt(srv.realm, 1, srv.alg.clone()))));
+                let k = good(&srv);
+                let a = match rng.below(3) {
+                    0 => signed(&srv, vec![A::ErrorCode(438)], k),
+                    1 => signed(&srv, vec![A::ErrorCode(401), A::Nonce(srv.nonce + 70, 0)], k),
+                    _ => vec![A::Mi(k.clone()), A::Sha(k)],
+                };
+                let cls = if a.iter().any(|x| matches!(x, A::ErrorCode(_))) { 3 } else { 2 };
+                reply(&mut run, out, &mut now, id, cls, with_fp(a));
+                let mut guard = 0;
+                while let Some(a) = run.armed { guard += 1; if guard > 14 || !run.outstanding.contains(&id) { break } now = now.max(a); run.apply(out, &Op::Tmo { now }); }
+            }
             0 | 1 => { let k = good(&srv); reply(&mut run, out, &mut now, id, 2, with_fp(signed(&srv, vec![], k))) }
             2 => { let k = good(&srv); reply(&mut run, out, &mut now, id, 3, with_fp(signed(&srv, vec![A::ErrorCode(400)], k))) }
             3 => { // malformed challenge: realm or nonce missing (must be discarded and change nothing)
